@@ -117,10 +117,12 @@ class Dispatcher(InstructionGenerator):
 
             return instructions
 
+        fleet_ids: Tuple[Optional[MembershipId], ...]
         if len(environment.fleet_ids) > 0:
-            fleet_ids = environment.fleet_ids
+            # sorted, so that the instruction order does not depend on set iteration order
+            fleet_ids = tuple(sorted(fid for fid in environment.fleet_ids if fid is not None))
         else:
-            fleet_ids = frozenset([None])
+            fleet_ids = (None,)
 
         initial_instructions: Tuple[DispatchTripInstruction, ...] = tuple()
 
